@@ -146,6 +146,15 @@ def ask_par(driver, lines, nproc=6):
     return out
 
 
+def thin(ctx, items, keep=3):
+    """in an ambient-sweep child the budget is about a third: every keep-th item (random phase), so every
+    generator family stays represented"""
+    if getattr(ctx, 'ambient', None) is None:
+        return items
+    off = ctx.rng.randrange(keep)
+    return [x for k, x in enumerate(items) if k % keep == off]
+
+
 def digest(data):
     return hashlib.sha1(data).hexdigest()[:16]
 
